@@ -54,6 +54,69 @@ def inf_test_kind(t) -> str:
     return table.get((r, el, neg), '?')
 
 
+FINFO = {'float32': {'tiny': 1.1754943508222875e-38, 'smallest_normal': 1.1754943508222875e-38, 'eps': 1.1920928955078125e-07, 'max': 3.4028234663852886e+38, 'denorm_min': 1.401298464324817e-45},
+         'float64': {'tiny': 2.2250738585072014e-308, 'smallest_normal': 2.2250738585072014e-308, 'eps': 2.220446049250313e-16, 'max': 1.7976931348623157e+308, 'denorm_min': 5e-324}}
+
+
+def fold_threshold(e, dtype: str):
+    """value of the rescaling threshold expression when the model's dtype is `dtype` (float32 / float64)"""
+    import math
+    if isinstance(e, ast.Constant) and isinstance(e.value, (int, float)):
+        return float(e.value)
+    if isinstance(e, ast.IfExp):
+        t = e.test
+        if isinstance(t, ast.Compare) and len(t.ops) == 1 and isinstance(t.ops[0], (ast.Eq, ast.NotEq, ast.Is, ast.IsNot)):
+            sides = [ast.unparse(t.left), ast.unparse(t.comparators[0])]
+            named = [x.split('.')[-1] for x in sides if x.split('.')[-1] in ('float32', 'float64', 'float', 'double')]
+            if len(named) == 1 and any(x.endswith('.dtype') for x in sides):
+                want = {'float': 'float32', 'double': 'float64'}.get(named[0], named[0])
+                truth = (want == dtype) if isinstance(t.ops[0], (ast.Eq, ast.Is)) else (want != dtype)
+                return fold_threshold(e.body if truth else e.orelse, dtype)
+        raise Unsupported(e, 'dtype test of the threshold not understood')
+    if isinstance(e, ast.Attribute) and isinstance(e.value, ast.Call) and (dotted_name(e.value.func) or '').endswith('finfo') and e.attr in FINFO[dtype]:
+        return FINFO[dtype][e.attr]
+    if isinstance(e, ast.BinOp):
+        l, r = fold_threshold(e.left, dtype), fold_threshold(e.right, dtype)
+        if isinstance(e.op, ast.Mult):
+            return l * r
+        if isinstance(e.op, ast.Div):
+            return l / r
+        if isinstance(e.op, ast.Pow):
+            return l ** r
+        if isinstance(e.op, ast.Add):
+            return l + r
+        if isinstance(e.op, ast.Sub):
+            return l - r
+    if isinstance(e, ast.Call) and (dotted_name(e.func) or '').split('.')[-1] == 'sqrt' and len(e.args) == 1:
+        return math.sqrt(fold_threshold(e.args[0], dtype))
+    if isinstance(e, ast.Call) and (dotted_name(e.func) or '') in ('float',) and len(e.args) == 1:
+        return fold_threshold(e.args[0], dtype)
+    raise Unsupported(e, f"threshold expression {ast.unparse(e)[:50]} not foldable")
+
+
+def check_threshold(ctx, rep):
+    """the `_safe` kernel leaves a node unscaled while its largest partial is at least the threshold; its parent multiplies two such children.  The product of two
+    numbers at the threshold must still be representable (> 0) in the model's precision, otherwise a node whose children were both 'large enough' is all zeros."""
+    cls = ctx.classes.get(MODEL)
+    init = cls.resolve('__init__')[1]
+    st = [x for x in ast.walk(init) if isinstance(x, ast.Assign) and any(self_attr(t) == 'threshold' for t in x.targets)]
+    if len(st) != 1:
+        rep.undecided('C03.P', 'TreeLikelihoodModel.threshold', where(cls.module, init), 'assignment of self.threshold not found (or not unique)')
+        return
+    for dtype in ('float32', 'float64'):
+        key = f"TreeLikelihoodModel.threshold::two-children-at-the-threshold-do-not-underflow::{dtype}"
+        try:
+            v = fold_threshold(st[0].value, dtype)
+        except Unsupported as u:
+            rep.undecided('C03.P', key, where(cls.module, st[0]), str(u))
+            continue
+        sq = v * v
+        rep.check('C03.P', key, sq >= FINFO[dtype]['denorm_min'] and v < 1.0, where(cls.module, st[0]), {'threshold': v, 'threshold_squared': sq, 'smallest_positive_number': FINFO[dtype]['denorm_min']},
+                  f"with dtype {dtype} the rescaling threshold is {v:g}: a node is left unscaled as long as its largest partial is above it, and the product of two such children "
+                  f"({sq:g}) is below the smallest positive {dtype} number ({FINFO[dtype]['denorm_min']:g}) — the parent's partials are all zero and the log-likelihood is -inf or NaN "
+                  f"although rescaling was on")
+
+
 def check_scalers(ctx, rep):
     """C03.P on every rescaling kernel; returns (module, kernels)"""
     m = ctx.prog.module(MODULE)
@@ -107,6 +170,7 @@ def run(ctx, rep):
     rep.rule('C03.P', "per-node max scaling: scaler of the divided product, one per site over category×state, appended on the same path, log-sum added inside the weighted sum")
     rep.not_decided += ["accuracy in the band where the plain result is finite but inaccurate", "agreement with an extended-range reference"]
     m, kernels = check_scalers(ctx, rep)
+    check_threshold(ctx, rep)
     rescaling = {n for n, k in kernels.items() if k.scaler is not None}
     plain = {n for n, k in kernels.items() if k.scaler is None}
     # an underflow of the plain kernels must surface as log(0) = -inf (that is what the isinf test of C03.G looks for); in every kernel the log is taken of the
